@@ -253,14 +253,16 @@ def run_group(group, inp, lay, snap, violations, scribble=False):
         pt = plain_pt()
         if isinstance(rho, list):
             rho = np.array(rho)          # initial_state must be an ndarray
-        maybe_scribble() if not scribble else None
+        # (the caller's arrays are overwritten right after construction,
+        # before the system is used for the first time, and the system is
+        # used twice)
+        maybe_scribble()
         res["cd"] = np.array(oqupy.compute_dynamics(
-            sysm, rho, process_tensor=pt, progress_type="silent").states)
-        if scribble:
-            maybe_scribble()
-            res["cd2"] = np.array(oqupy.compute_dynamics(
-                sysm, inp.rho.copy(), process_tensor=pt,
-                progress_type="silent").states)
+            sysm, inp.rho.copy() if scribble else rho, process_tensor=pt,
+            progress_type="silent").states)
+        res["cd2"] = np.array(oqupy.compute_dynamics(
+            sysm, inp.rho.copy(), process_tensor=pt,
+            progress_type="silent").states)
     elif group == "correlations":
         h, a, b, rho = (own("H", inp.h), own("A", inp.a), own("B", inp.b),
                         own("rho0", inp.rho))
